@@ -60,6 +60,7 @@ type Monitors struct {
 	hookOK map[string]bool // "rs/run/version" -> hook returned nil
 
 	tainted     bool
+	after       string // first known-finding class this history has hit
 	staleReads  int
 	dups        int
 	handleStale bool
@@ -75,6 +76,10 @@ func newMonitors(w *World) *Monitors {
 }
 
 func (m *Monitors) violate(prop, oracle, sig, detail string) {
+	if m.after != "" && !strings.Contains(sig, "+") {
+		// downstream of a listed finding class hit earlier in this history
+		sig += "+after(" + m.after + ")"
+	}
 	for _, v := range m.Viol {
 		if v.Property == prop && v.Signature == sig {
 			return
@@ -158,6 +163,13 @@ func directCaller(method string) string {
 	return ""
 }
 
+func (m *Monitors) afterFlag() string {
+	if m.after != "" {
+		return "+after(" + m.after + ")"
+	}
+	return ""
+}
+
 func (m *Monitors) pathName() string {
 	// which code path is making the current call: process token kind, or api action
 	t := m.opTok
@@ -178,6 +190,13 @@ func (m *Monitors) pathName() string {
 		if len(m.w.Cfg.TimeoutsAt(st)) > 1 {
 			t += "+two-timeouts"
 		}
+	}
+	if strings.Contains(t, "+") && m.after == "" {
+		m.after = t[strings.Index(t, "+")+1:]
+	} else if m.after != "" && !strings.Contains(t, "+") {
+		// an earlier operation of this history already hit a listed finding class (stale read, stale handle, re-entrant write,
+		// two timeouts): what follows may be its downstream consequence
+		t += "+after(" + m.after + ")"
 	}
 	return t
 }
@@ -339,7 +358,7 @@ func (m *Monitors) onStore(rr *runRec, c *workflow.Record) {
 	// C15 scrub
 	if crs == 6 {
 		if c.Status != p.Status {
-			m.violate("C15", "scrub-keeps-status", "data-deleted-changed-status", fmt.Sprintf("%s -> %s", recStr(w, p), recStr(w, c)))
+			m.violate("C15", "scrub-keeps-status", "data-deleted-changed-status in "+m.pathName(), fmt.Sprintf("%s -> %s", recStr(w, p), recStr(w, c)))
 		}
 		want := []byte("{'result': 'deleted'}")
 		if cfg.CustomDelete {
@@ -354,11 +373,11 @@ func (m *Monitors) onStore(rr *runRec, c *workflow.Record) {
 			}
 		}
 		if want != nil && string(c.Object) != string(want) {
-			m.violate("C15", "scrub-object", "data-deleted-wrong-object",
+			m.violate("C15", "scrub-object", "data-deleted-wrong-object in "+m.pathName(),
 				fmt.Sprintf("run r%d: DataDeleted write stores %q, expected %q (custom delete of the stored object %q)", rr.ord, c.Object, want, p.Object))
 		}
 		if prs != 7 && prs != 6 {
-			m.violate("C15", "delete-only-when-requested", fmt.Sprintf("data-deleted-from-%d", prs), fmt.Sprintf("run r%d", rr.ord))
+			m.violate("C15", "delete-only-when-requested", fmt.Sprintf("data-deleted-from-%d in %s", prs, m.pathName()), fmt.Sprintf("run r%d", rr.ord))
 		}
 	}
 	if crs == 7 && !(prs == 4 || prs == 5 || prs == 6 || prs == 7) {
@@ -376,12 +395,12 @@ func (m *Monitors) onStore(rr *runRec, c *workflow.Record) {
 	// C13: resume by the retry consumer
 	if m.opTok == "rty" && crs == 2 {
 		if prs != 3 {
-			m.violate("C13", "retry-only-paused", "retry-resumed-non-paused", fmt.Sprintf("run r%d was %d", rr.ord, prs))
+			m.violate("C13", "retry-only-paused", "retry-resumed-non-paused in "+m.pathName(), fmt.Sprintf("run r%d was %d", rr.ord, prs))
 		}
 		if cfg.Stamp {
 			since := w.Clk.Now().Sub(p.UpdatedAt)
 			if since < time.Duration(cfg.RetryAfterSec)*time.Second {
-				m.violate("C13", "retry-waits-interval", "retry-resumed-early",
+				m.violate("C13", "retry-waits-interval", "retry-resumed-early in "+m.pathName(),
 					fmt.Sprintf("run r%d resumed %v after it was paused, configured interval %ds", rr.ord, since, cfg.RetryAfterSec))
 			}
 			m.NonTrivial["retry-resume"] = true
@@ -431,7 +450,7 @@ func (m *Monitors) onInvoke(inv Invocation) {
 				}
 			}
 			if inv.Persisted.Status != inv.Status {
-				m.violate("C06", "status-topic-consumer", inv.Kind+"-invoked-at-other-status",
+				m.violate("C06", "status-topic-consumer", inv.Kind+"-invoked-at-other-status in "+m.pathName(),
 					fmt.Sprintf("%s function registered on status %d invoked while run r%d is persisted at status %d", inv.Kind, inv.Status, inv.Run, inv.Persisted.Status))
 			}
 		}
@@ -622,7 +641,7 @@ func (m *Monitors) onAck(name string, idx int) {
 		evv, _ := strconv.Atoi(w.log[idx].Headers[workflow.HeaderRecordVersion])
 		tok := w.sim.Tok[name]
 		if (strings.HasPrefix(tok, "st:") || strings.HasPrefix(tok, "ins:")) && uint(evv) > v && !m.filteredAck {
-			m.violate("C04", "newer-event-retried", "newer-event-acknowledged:"+strings.SplitN(tok, ":", 2)[0],
+			m.violate("C04", "newer-event-retried", "newer-event-acknowledged:"+strings.SplitN(tok, ":", 2)[0]+m.afterFlag(),
 				fmt.Sprintf("%s acknowledged e%d carrying version %d although the store answered with version %d (a lagging read): the announcement is dropped instead of retried", tok, idx, evv, v))
 		}
 	}
@@ -865,7 +884,7 @@ func (m *Monitors) afterTrigger(fid, start, n int, err error, runsBefore int) {
 	}
 	for k, v := range m.unfinishedPerFid() {
 		if v > 1 {
-			m.violate("C09", "one-unfinished-run", "two-unfinished-runs", fmt.Sprintf("foreign ID %s has %d unfinished runs", k, v))
+			m.violate("C09", "one-unfinished-run", "two-unfinished-runs"+m.afterFlag(), fmt.Sprintf("foreign ID %s has %d unfinished runs", k, v))
 		}
 	}
 	if inProgress || last != nil {
@@ -923,7 +942,7 @@ func (m *Monitors) atQuiescence(s *Sim) {
 			h[workflow.Header(k)] = v
 		}
 		if pub[sendKey(ob.Headers["topic"], ob.RunId, int(ob.Type), h)] == 0 {
-			m.violate("C05", "every-write-published", "write-never-published", fmt.Sprintf("write %s was never published although the relay is idle and the outbox is empty", recStr(w, &r)))
+			m.violate("C05", "every-write-published", "write-never-published"+m.afterFlag(), fmt.Sprintf("write %s was never published although the relay is idle and the outbox is empty", recStr(w, &r)))
 		}
 	}
 	// C14: each entry into a hooked state has had a successful hook invocation (unless data deleted)
@@ -933,7 +952,7 @@ func (m *Monitors) atQuiescence(s *Sim) {
 			key := fmt.Sprintf("%d/%d/%d", rs, w.RunOrd(r.RunID), r.Meta.Version)
 			cur := w.persisted(r.RunID)
 			if !m.hookOK[key] && ObjToken(cur.Object) != MarkerToken {
-				m.violate("C14", "hook-at-least-once", fmt.Sprintf("hook-%d-never-succeeded", rs),
+				m.violate("C14", "hook-at-least-once", fmt.Sprintf("hook-%d-never-succeeded", rs)+m.afterFlag(),
 					fmt.Sprintf("run r%d entered run state %d at version %d; at quiescence its hook has not returned nil for that entry", w.RunOrd(r.RunID), rs, r.Meta.Version))
 			}
 			m.NonTrivial["hooked-write:"+strconv.Itoa(rs)] = true
